@@ -201,6 +201,9 @@ func (ks *KeyStorage) UnmarshalBinary(data []byte) error {
 	defer ks.mx.Unlock()
 
 	if err := ks.underlying.UnmarshalVT(data); err != nil {
+		// a failed decode leaves the storage partially filled (possibly with empty slots), so don't keep any of it
+		ks.underlying.Reset()
+
 		return fmt.Errorf("failed to unmarshal key storage: %w", err)
 	}
 
